@@ -19,7 +19,9 @@ package metadata
 
 import (
 	"bytes"
+	"encoding/binary"
 	"errors"
+	"fmt"
 
 	"github.com/bits-and-blooms/bloom/v3"
 	"github.com/siglens/siglens/pkg/segment/structs"
@@ -28,29 +30,59 @@ import (
 	log "github.com/sirupsen/logrus"
 )
 
-func readRangeIndexFromByteArray(blkRILen uint32, bbRI []byte) map[string]*structs.Numbers {
+// hasBytes reports whether buf holds n more bytes at offset off.
+func hasBytes(buf []byte, off uint32, n uint32) bool {
+	return uint64(off)+uint64(n) <= uint64(len(buf))
+}
+
+var errTruncatedRangeIndex = errors.New("range index is shorter than its entries")
+
+func readRangeIndexFromByteArray(blkRILen uint32, bbRI []byte) (map[string]*structs.Numbers, error) {
 	var byteCounter uint32 = 0
 	blkRI := map[string]*structs.Numbers{}
 
 	for byteCounter < blkRILen {
 		//read RangeKeyLen
+		if !hasBytes(bbRI, byteCounter, 2) {
+			return nil, errTruncatedRangeIndex
+		}
 		blkRangeKeyLen := utils.BytesToUint16LittleEndian(bbRI[byteCounter : byteCounter+2])
 
 		byteCounter += 2
 		//read ActualRangeKey
+		if !hasBytes(bbRI, byteCounter, uint32(blkRangeKeyLen)) {
+			return nil, errTruncatedRangeIndex
+		}
 		blkActualRangeKey := string(bbRI[byteCounter : byteCounter+uint32(blkRangeKeyLen)])
 		byteCounter += uint32(blkRangeKeyLen)
 
 		//read RangeNumType
-
+		// one byte for the type, 8 bytes each for min and max
+		if !hasBytes(bbRI, byteCounter, 17) {
+			return nil, errTruncatedRangeIndex
+		}
 		blkRangeNumType := sutils.RangeNumType(bbRI[byteCounter : byteCounter+1][0])
 		byteCounter += 1
 		var blkRIToAdd *structs.Numbers
 		blkRIToAdd, byteCounter = rangeIndexToBytes(blkActualRangeKey, blkRangeNumType, bbRI, byteCounter)
+		if blkRIToAdd == nil {
+			return nil, fmt.Errorf("range index has an unknown number type %v", blkRangeNumType)
+		}
 		blkRI[blkActualRangeKey] = blkRIToAdd
 
 	}
-	return blkRI
+	return blkRI, nil
+}
+
+// bloomFitsBuffer checks the serialized bloom filter (m, k and the bit count of
+// its bit set, 8 bytes each, then the bit set) before it is handed to the bloom
+// library, which allocates by the stored bit count.
+func bloomFitsBuffer(buf []byte) bool {
+	if len(buf) < 24 {
+		return false
+	}
+	numBits := binary.BigEndian.Uint64(buf[16:24])
+	return numBits <= uint64(len(buf)-24)*8
 }
 
 func rangeIndexToBytes(blkActualRangeKey string, blkRangeNumType sutils.RangeNumType, bbBlockRI []byte, byteCounter uint32) (*structs.Numbers, uint32) {
@@ -82,8 +114,15 @@ func getCmi(cmbuf []byte) (*structs.CmiContainer, error) {
 
 	cmic := &structs.CmiContainer{}
 
+	if len(cmbuf) == 0 {
+		return nil, errors.New("getCmi: empty cmi")
+	}
+
 	switch cmbuf[0] {
 	case sutils.CMI_BLOOM_INDEX[0]:
+		if !bloomFitsBuffer(cmbuf[1:]) {
+			return nil, errors.New("getCmi: bloom cmi is shorter than the filter it should hold")
+		}
 		bufRdr := bytes.NewReader(cmbuf[1:])
 		blkBloom := &bloom.BloomFilter{}
 		_, bferr := blkBloom.ReadFrom(bufRdr)
@@ -95,7 +134,11 @@ func getCmi(cmbuf []byte) (*structs.CmiContainer, error) {
 		cmic.Loaded = true
 		cmic.Bf = blkBloom
 	case sutils.CMI_RANGE_INDEX[0]:
-		blkRI := readRangeIndexFromByteArray(uint32(len(cmbuf)-1), cmbuf[1:])
+		blkRI, err := readRangeIndexFromByteArray(uint32(len(cmbuf)-1), cmbuf[1:])
+		if err != nil {
+			log.Errorf("getCmi: failed to convert range cmi %+v", err)
+			return nil, err
+		}
 		cmic.CmiType = sutils.CMI_RANGE_INDEX[0]
 		cmic.Loaded = true
 		cmic.Ranges = blkRI
